@@ -1,16 +1,20 @@
 PROP = {
  "id": "C07",
  "functions": [
-  "saml2_tophat.server:Server.setup_assertion"
+  "saml2_tophat.server:Server.setup_assertion",
+  "saml2_tophat.assertion:Policy.get[plain]",
+  "saml2_tophat.assertion:Policy.filter",
+  "saml2_tophat.assertion:Policy.restrict",
+  "saml2_tophat.assertion:Assertion.apply_policy"
  ],
  "bounded": [
   "policy_filter"
  ],
  "level": "other",
- "explanation": "The clause of the statement that concerns every outcome -- whatever path Server.setup_assertion takes, the attribute set handed to Assertion.construct is the policy-filtered one -- is a precondition obligation at the construct() call site over the ghost FILTERED, which only Assertion.apply_policy's normal return establishes. It fails on the MissingValue + best_effort path (known finding with a native witness). The narrowing functions themselves (filter_attribute_value_assertions, filter_on_attributes, Policy.filter/restrict, apply_policy) are NOT verified deductively in this session (the dict-mutating loops need five quantified invariants whose VC generation did not finish in 15 minutes); apply_policy is an ASSUMED contract and the filters are covered by a BOUNDED native enumeration, labelled bounded.",
+ "explanation": "Verified glue of the release policy: Policy.get (the SP's own entry, else \"default\", else the caller's default), Policy.filter and Policy.restrict (whatever is returned is a subset of the identity; names only attributes the applicable attribute restrictions allow, the SP's entity categories entitle it to, and -- when those do not apply -- the SP declared), Assertion.apply_policy (what stays in the Assertion object is exactly what the policy returned, a MissingValue leaves it untouched) and the call-site obligation in Server.setup_assertion that only a policy-filtered Assertion is turned into a SAML assertion (fails on the best-effort path: known finding). The LEAF filters (filter_attribute_value_assertions, filter_on_attributes, post_entity_categories) are ASSUMED relations (SUB / NAMED / ASKED with four stated lemmas about subset and key subset) and are exercised by the bounded stand-in policy_filter, never counted as proved.",
  "not_decided": [
-  "deductive proofs of filter_attribute_value_assertions, filter_on_attributes, Policy.filter, Policy.restrict, Assertion.apply_policy",
-  "entity-category based release (bounded stand-in uses no entity categories)",
-  "the two construct() call sites that build keyword arguments with dict comprehensions"
+  "the leaf filters' bodies (regex matching over nested dict / list comprehensions: queries unknown in both solvers; draft in contracts/_unproved_filter_contract.txt)",
+  "value-level clause 'only values matching a configured pattern' (inside the assumed NAMED / SUB relations)",
+  "Policy.get with post_func (entity categories): call through a function-valued parameter with **kwargs, assumed"
  ]
 }
